@@ -56,6 +56,33 @@ Theorem C11_environment_independence :
       out run st0 (h ++ [Run i e1]) = out run st0 (map (retag Val EVal Input move) h ++ [Run i e2]).
 Proof. exact environment_independence. Qed.
 
+(* a run that fails AFTER writing survivors (arbitrary partial writes w to anything
+   some run-time path writes: a cache filled while parsing, a half-updated registry),
+   followed by a retry: the retry gives what the request gives alone in a fresh process *)
+Theorem C11_retry_after_crash :
+  forall (Val EVal Input Output : Type)
+         (run : state Val -> entropy EVal -> Input -> Output * state Val)
+         (t : list surv) (et : list esite),
+    writes_only run t ->
+    reads_only run t et ->
+    survivor_obligation t = true ->
+    entropy_obligation et = true ->
+    forall (st0 : state Val) (h : list (@event Val EVal Input)) (w : state Val -> state Val)
+           (i : Input) (e1 e2 : entropy EVal),
+      Forall (crash_ok t) h -> crash_ok t (@Crash Val EVal Input w) ->
+      out run st0 ((h ++ [Crash w]) ++ [Run i e1]) = out run st0 ([] ++ [Run i e2]).
+Proof. exact retry_after_crash. Qed.
+
+(* ... and not without the obligation: a survivor written before the failure point
+   and read by the retry makes the retry differ from the fresh process *)
+Theorem C11_retry_after_crash_necessary :
+  exists (t : list surv) (run : state nat -> entropy nat -> nat -> nat * state nat),
+    reads_only run t [] /\ writes_only run t /\ survivor_obligation t = false /\
+    exists st0 (w : state nat -> state nat) i e,
+      crash_ok t (@Crash nat nat nat w) /\
+      out run st0 (([] ++ [Crash w]) ++ [Run i e]) <> out run st0 ([] ++ [Run i e]).
+Proof. exact retry_after_crash_necessary. Qed.
+
 (* the survivors table generated from the current tree meets the obligation *)
 Theorem C11_generated_obligation : survivor_obligation survivors = true.
 Proof. exact generated_obligation. Qed.
@@ -133,6 +160,8 @@ Proof. exact nonvacuous_environment. Qed.
 
 Print Assumptions C11_history_independence.
 Print Assumptions C11_environment_independence.
+Print Assumptions C11_retry_after_crash.
+Print Assumptions C11_retry_after_crash_necessary.
 Print Assumptions C11_environment_obligation_necessary.
 Print Assumptions C11_nonvacuous_environment.
 Print Assumptions C11_generated_obligation.
